@@ -83,8 +83,11 @@ type parseInterp struct {
 	methods  map[string]*ast.FuncDecl
 	kinds    map[string]int // TokenX -> bit
 	allKinds kset
-	skipFn   string // the recovery routine
-	topFn    string // the function with the top-level loop `for current != EOF`
+	skipFns  map[string]bool // the recovery routines (by effect: consume up to and including the next line break)
+	topFn    string          // the entry method with the loop that only ends at EOF
+	topLoop  *ast.ForStmt
+	mutMemo  map[string]int
+	quiet    bool // summarising a method to classify it: nothing is reported or counted
 	stack    []string
 	reported map[string]bool
 	nLoops   map[token.Pos]bool
@@ -121,30 +124,14 @@ func ruleParser(c *Ctx) {
 			}
 		}
 	}
-	// recovery routine: the method consisting of a loop "until Newline or EOF" followed by consuming the Newline
-	// top-level dispatcher: the method with a loop `for p.current.Type != TokenEOF`
-	for name, fd := range pi.methods {
-		if len(fd.Body.List) == 2 {
-			if fs, ok := fd.Body.List[0].(*ast.ForStmt); ok && fs.Cond != nil {
-				txt := fullStr(c.P.Fset, fs.Cond)
-				if strings.Contains(txt, "TokenNewline") && strings.Contains(txt, "TokenEOF") && len(fs.Body.List) == 1 {
-					if _, ok := fd.Body.List[1].(*ast.IfStmt); ok {
-						pi.skipFn = name
-					}
-				}
-			}
+	pi.findAnchors()
+	if len(pi.skipFns) == 0 || pi.topFn == "" {
+		var sk []string
+		for n := range pi.skipFns {
+			sk = append(sk, n)
 		}
-		ast.Inspect(fd.Body, func(x ast.Node) bool {
-			if fs, ok := x.(*ast.ForStmt); ok && fs.Cond != nil {
-				if be, ok := ast.Unparen(fs.Cond).(*ast.BinaryExpr); ok && be.Op == token.NEQ && pi.isCurrentType(be.X) && identOf(be.Y).Name == "TokenEOF" {
-					pi.topFn = name
-				}
-			}
-			return true
-		})
-	}
-	if pi.skipFn == "" || pi.topFn == "" {
-		c.undecided("P-PROGRESS", "parser.Parser", "anchors", token.NoPos, fmt.Sprintf("recovery routine (%q) or top-level dispatcher (%q) not identified", pi.skipFn, pi.topFn))
+		sort.Strings(sk)
+		c.undecided("P-PROGRESS", "parser.Parser", "anchors", token.NoPos, fmt.Sprintf("recovery routine (%q) or top-level dispatcher (%q) not identified", strings.Join(sk, ","), pi.topFn))
 		return
 	}
 	top := pi.methods[pi.topFn]
@@ -156,9 +143,154 @@ func ruleParser(c *Ctx) {
 	c.census("P-RESYNC", "calls of the recovery routine interpreted (over calling contexts)", pi.nSkips, 8)
 }
 
+// readsCurrent: the expression reads the kind of the current token, directly or through pure boolean methods.
+func (pi *parseInterp) readsCurrent(e ast.Expr, depth int) bool {
+	found := false
+	ast.Inspect(e, func(x ast.Node) bool {
+		switch n := x.(type) {
+		case *ast.SelectorExpr:
+			if pi.isCurrentType(n) {
+				found = true
+			}
+		case *ast.CallExpr:
+			if m, ok := pi.methodCall(n); ok && depth < 3 {
+				for _, st := range pi.methods[m].Body.List {
+					if r, ok := st.(*ast.ReturnStmt); ok {
+						for _, res := range r.Results {
+							if pi.readsCurrent(res, depth+1) {
+								found = true
+							}
+						}
+					}
+				}
+			}
+		}
+		return !found
+	})
+	return found
+}
+
+// findAnchors identifies the recovery routines and the top-level dispatcher by what they do, using the
+// interpreter itself in quiet mode:
+//   - a recovery routine is a method that, entered in the middle of a line with any current token, always
+//     leaves with the current token being the first token of a fresh line or EOF, and that calls no other
+//     token-consuming method than the token fetch;
+//   - the dispatcher is a method no other parser method calls, containing a loop that can only be left
+//     (through its condition) at EOF.
+func (pi *parseInterp) findAnchors() {
+	pi.skipFns = map[string]bool{}
+	eof, hasEOF := pi.kinds["TokenEOF"]
+	if !hasEOF {
+		return
+	}
+	var names []string
+	for n := range pi.methods {
+		names = append(names, n)
+	}
+	sort.Strings(names)
+	fetches := map[string]bool{} // methods whose only effect is the token fetch
+	for _, n := range names {
+		fd := pi.methods[n]
+		direct, calls := false, false
+		ast.Inspect(fd.Body, func(x ast.Node) bool {
+			switch s := x.(type) {
+			case *ast.AssignStmt:
+				if pi.isTokenFetch(s) {
+					direct = true
+				}
+			case *ast.CallExpr:
+				if m, ok := pi.methodCall(s); ok && pi.mutates(pi.methods[m].Body, 0) {
+					calls = true
+				}
+			}
+			return true
+		})
+		if direct && !calls {
+			fetches[n] = true
+		}
+	}
+	pi.quiet = true
+	for _, n := range names {
+		fd := pi.methods[n]
+		if fetches[n] || !pi.mutates(fd.Body, 0) || fd.Type.Results != nil && len(fd.Type.Results.List) > 0 {
+			continue
+		}
+		// calls only fetch methods
+		onlyFetch := true
+		ast.Inspect(fd.Body, func(x ast.Node) bool {
+			if call, ok := x.(*ast.CallExpr); ok {
+				if m, ok := pi.methodCall(call); ok && pi.mutates(pi.methods[m].Body, 0) && !fetches[m] {
+					onlyFetch = false
+				}
+			}
+			return true
+		})
+		if !onlyFetch {
+			continue
+		}
+		fr := &pFrame{fd: fd}
+		pi.stack = []string{n}
+		fl := pi.block(fd.Body.List, []*pState{{T: pi.allKinds, ls: false}}, fr)
+		exits := pNormalize(append(append([]*pState{}, fl.next...), fr.rets...))
+		ok, someLS := len(exits) > 0, false
+		for _, e := range exits {
+			if e.ls {
+				someLS = true
+			} else if e.T != 1<<uint(eof) {
+				ok = false
+			}
+		}
+		if ok && someLS {
+			pi.skipFns[n] = true
+		}
+	}
+	pi.quiet = false
+	pi.stack = nil
+	// dispatcher
+	called := map[string]bool{}
+	for _, n := range names {
+		ast.Inspect(pi.methods[n].Body, func(x ast.Node) bool {
+			if call, ok := x.(*ast.CallExpr); ok {
+				if m, ok := pi.methodCall(call); ok && m != n {
+					called[m] = true
+				}
+			}
+			return true
+		})
+	}
+	for _, n := range names {
+		if called[n] || pi.topFn != "" {
+			continue
+		}
+		fd := pi.methods[n]
+		ast.Inspect(fd.Body, func(x ast.Node) bool {
+			fs, ok := x.(*ast.ForStmt)
+			if !ok || fs.Cond == nil || pi.topLoop != nil || !pi.readsCurrent(fs.Cond, 0) {
+				return true
+			}
+			pi.quiet = true
+			_, f := pi.cond(fs.Cond, []*pState{{T: pi.allKinds}}, &pFrame{fd: fd})
+			pi.quiet = false
+			onlyEOF := len(f) > 0
+			for _, st := range f {
+				if st.T != 1<<uint(eof) {
+					onlyEOF = false
+				}
+			}
+			if onlyEOF {
+				pi.topFn, pi.topLoop = n, fs
+			}
+			return true
+		})
+	}
+}
+
 func (pi *parseInterp) fn(fr *pFrame) string { return pi.c.P.declName(fr.fd) }
 
 func (pi *parseInterp) undecided(fr *pFrame, n ast.Node, what string) {
+	if pi.quiet {
+		return
+	}
 	k := fmt.Sprintf("%s|%d", what, n.Pos())
 	if pi.reported[k] {
 		return
@@ -227,14 +359,59 @@ func (pi *parseInterp) mutates(n ast.Node, depth int) bool {
 			}
 		case *ast.CallExpr:
 			if m, ok := pi.methodCall(s); ok && depth < 6 {
-				if pi.mutates(pi.methods[m].Body, depth+1) {
+				if pi.mutatesMethod(m, depth+1) {
 					found = true
 				}
 			}
 		}
-		return true
+		return !found
 	})
 	return found
+}
+
+// mutatesMethod: the method consumes tokens, directly or through the methods it calls (least fixpoint over
+// the method call graph, computed once).
+func (pi *parseInterp) mutatesMethod(m string, depth int) bool {
+	if pi.mutMemo == nil {
+		pi.mutMemo = map[string]int{}
+		calls := map[string][]string{}
+		for n, fd := range pi.methods {
+			ast.Inspect(fd.Body, func(x ast.Node) bool {
+				switch s := x.(type) {
+				case *ast.AssignStmt:
+					if pi.isTokenFetch(s) {
+						pi.mutMemo[n] = 1
+					}
+					for _, l := range s.Lhs {
+						if se, ok := ast.Unparen(l).(*ast.SelectorExpr); ok && se.Sel.Name == "current" {
+							pi.mutMemo[n] = 1
+						}
+					}
+				case *ast.CallExpr:
+					if c, ok := pi.methodCall(s); ok {
+						calls[n] = append(calls[n], c)
+					}
+				}
+				return true
+			})
+		}
+		for changed := true; changed; {
+			changed = false
+			for n, cs := range calls {
+				if pi.mutMemo[n] == 1 {
+					continue
+				}
+				for _, c := range cs {
+					if pi.mutMemo[c] == 1 {
+						pi.mutMemo[n] = 1
+						changed = true
+						break
+					}
+				}
+			}
+		}
+	}
+	return pi.mutMemo[m] == 1
 }
 
 func (pi *parseInterp) cond(e ast.Expr, in []*pState, fr *pFrame) (t, f []*pState) {
@@ -271,6 +448,16 @@ func (pi *parseInterp) cond(e ast.Expr, in []*pState, fr *pFrame) (t, f []*pStat
 				}
 				// comparison with a variable kind (closingToken): no refinement
 				return pClone(in), pClone(in)
+			}
+		}
+	}
+	// a pure boolean method of the parser that returns one expression: the condition is that expression
+	if call, ok := e.(*ast.CallExpr); ok {
+		if m, ok := pi.methodCall(call); ok && !pi.mutates(pi.methods[m].Body, 0) {
+			if body := pi.methods[m].Body.List; len(body) == 1 {
+				if r, ok := body[0].(*ast.ReturnStmt); ok && len(r.Results) == 1 {
+					return pi.cond(r.Results[0], in, fr)
+				}
 			}
 		}
 	}
@@ -436,7 +623,7 @@ func (pi *parseInterp) stmt(st ast.Stmt, in []*pState, fr *pFrame) pFlow {
 		if s.Init != nil {
 			cur = pi.stmt(s.Init, cur, fr).next
 		}
-		isTokenLoop := s.Cond != nil && strings.Contains(fullStr(pi.c.P.Fset, s.Cond), ".current.Type")
+		isTokenLoop := (s.Cond != nil && pi.readsCurrent(s.Cond, 0)) || (s.Cond == nil && pi.mutates(s.Body, 0))
 		if !isTokenLoop && !pi.mutates(s.Body, 0) {
 			fl.next = cur // a loop over characters / slices that does not touch the token stream
 			return fl
@@ -446,7 +633,9 @@ func (pi *parseInterp) stmt(st ast.Stmt, in []*pState, fr *pFrame) pFlow {
 			fl.next = cur
 			return fl
 		}
-		pi.nLoops[s.Pos()] = true
+		if !pi.quiet {
+			pi.nLoops[s.Pos()] = true
+		}
 		// push a fresh advance flag
 		entry := pClone(cur)
 		for _, e := range entry {
@@ -454,11 +643,11 @@ func (pi *parseInterp) stmt(st ast.Stmt, in []*pState, fr *pFrame) pFlow {
 		}
 		head := pNormalize(entry)
 		var exits []*pState
-		desc := fmt.Sprintf("loop `for %s`", exprStr(pi.c.P.Fset, s.Cond))
-		isTop := false
-		if be, ok := ast.Unparen(s.Cond).(*ast.BinaryExpr); ok && be.Op == token.NEQ && pi.isCurrentType(be.X) && identOf(be.Y).Name == "TokenEOF" {
-			isTop = true
+		desc := "loop `for`"
+		if s.Cond != nil {
+			desc = fmt.Sprintf("loop `for %s`", exprStr(pi.c.P.Fset, s.Cond))
 		}
+		isTop := s == pi.topLoop
 		for iter := 0; iter < 40; iter++ {
 			if isTop {
 				for _, h := range head {
@@ -466,7 +655,10 @@ func (pi *parseInterp) stmt(st ast.Stmt, in []*pState, fr *pFrame) pFlow {
 				}
 				head = pNormalize(head)
 			}
-			t, f := pi.cond(s.Cond, head, fr)
+			t, f := pClone(head), []*pState(nil)
+			if s.Cond != nil {
+				t, f = pi.cond(s.Cond, head, fr)
+			}
 			body := pi.block(s.Body.List, t, fr)
 			back := pNormalize(append(body.next, body.cont...))
 			if s.Post != nil {
@@ -545,6 +737,9 @@ func (pi *parseInterp) kindNames(t kset) string {
 }
 
 func (pi *parseInterp) okOnce(rule string, fr *pFrame, desc string, pos token.Pos, msg string) {
+	if pi.quiet {
+		return
+	}
 	k := rule + "|" + pi.fn(fr) + "|" + desc
 	if pi.reported[k] {
 		return
@@ -554,6 +749,9 @@ func (pi *parseInterp) okOnce(rule string, fr *pFrame, desc string, pos token.Po
 }
 
 func (pi *parseInterp) findOnce(rule string, fr *pFrame, desc string, pos token.Pos, msg string) {
+	if pi.quiet {
+		return
+	}
 	k := rule + "|" + pi.fn(fr) + "|" + desc
 	if pi.reported[k+"|F"] {
 		return
@@ -603,7 +801,7 @@ func (pi *parseInterp) call(m string, call *ast.CallExpr, in []*pState, fr *pFra
 	if !pi.mutates(fd.Body, 0) {
 		return in
 	}
-	if m == pi.skipFn {
+	if pi.skipFns[m] && !pi.skipFns[fr.fd.Name.Name] && !pi.quiet {
 		// P-RESYNC
 		for _, s := range in {
 			pi.nSkips++
@@ -629,7 +827,18 @@ func (pi *parseInterp) call(m string, call *ast.CallExpr, in []*pState, fr *pFra
 	sub := &pFrame{fd: fd}
 	fl := pi.block(fd.Body.List, pClone(in), sub)
 	pi.stack = pi.stack[:len(pi.stack)-1]
-	return pNormalize(append(fl.next, sub.rets...))
+	// a return from inside a token loop leaves that loop: drop the progress flags of the callee's loops
+	d := 0
+	if len(in) > 0 {
+		d = len(in[0].adv)
+	}
+	outs := append(fl.next, sub.rets...)
+	for _, o := range outs {
+		if len(o.adv) > d {
+			o.adv = o.adv[:d]
+		}
+	}
+	return pNormalize(outs)
 }
 
 // ordinalIn: 1-based index of node n among the nodes of the same syntactic kind in fd, in source order
